@@ -178,6 +178,14 @@ def load_prop(pid):
 
 def worker(pid, tier, seed, shard, nshards, n, out):
     t0 = time.time()
+    try:
+        # a runaway case (an engine change that makes a response explode) must end as a MemoryError in ONE worker - a
+        # harness error, i.e. inconclusive - not take the machine down
+        import resource
+        lim = int(os.environ.get("VERIF_WORKER_MEM_GB", "6")) << 30
+        resource.setrlimit(resource.RLIMIT_AS, (lim, lim))
+    except Exception:  # noqa
+        pass
     from vt import boot
     parser_kind = boot.init()
     prop = load_prop(pid)
